@@ -263,6 +263,12 @@ def initAcc (a : AggSpec) : AccSt :=
   | .sample => .sample none
   | .gconcat => .gc [] []
 
+/-- Average.update: `if dt is None: dt = value.datatype else: dt = type_promotion(dt, value.datatype)` -/
+def avgNextDT (dt : Option DT) (d : DT) : Option DT :=
+  match dt with
+  | none => some d
+  | some d0 => typePromotion d0 d
+
 def addSeen (dist : Bool) (t : Term) (seen : List Term) : List Term := if dist then t :: seen else seen
 
 /-- `if acc.use_row(row): acc.update(row, aggregator)` for one accumulator -/
@@ -294,7 +300,7 @@ def AccSt.update (a : AggSpec) (st : AccSt) (r : Row) : AccSt :=
       else match numericOf t with
         | none => st
         | some (d, x, _) =>
-          match (match dt with | none => some d | some d0 => typePromotion d0 d) with
+          match avgNextDT dt d with
           | none => st
           | some dt' => .avg (s + x) (cnt + 1) (some dt') (addSeen a.dist t seen)
   | .ext cur =>
@@ -533,25 +539,41 @@ def evalSlice {α} (start : Nat) (length : Option Nat) (xs : List α) : List α 
 
 def padRow (w : Nat) (r : Row) : Row := (List.range w).map r.get
 
+/-- HAVING: `Filter(expr=and_(*q.having.condition), p=M)` -/
+def applyHaving (h : Option Expr) (rows : List Row) : List Row :=
+  match h with
+  | some e => filterRows e rows
+  | none => rows
+
+/-- `Distinct` / `Reduced` node -/
+def applyModifier (m : Modifier) (rows : List Row) : List Row :=
+  match m with
+  | .none => rows
+  | .distinct => evalDistinct rows
+  | .reduced => evalReduced rows
+
+/-- `Slice` node (only when LIMIT or OFFSET is written) -/
+def applySlice (offset limit : Option Nat) (rows : List Row) : List Row :=
+  match offset, limit with
+  | none, none => rows
+  | o, l => evalSlice (o.getD 0) l rows
+
+/-- Group/AggregateJoin and the Extends of the sampled SELECT variables; gives the rows, and the HAVING,
+    SELECT and ORDER BY expressions as rewritten by `translateAggregates` -/
+def groupStage (q : Query) (input : List Row) : List Row × Option Expr × List Proj × List (Expr × Bool) :=
+  if q.isAggregate then
+    let t := translateAggregates q
+    let w := q.nuser + t.A.length
+    let m1 := aggregateJoin w q.group t.A (input.map (padRow w))
+    (t.aliases.foldl (fun rows al => extend (.var al.1) al.2 rows) m1, t.having, t.proj, t.order)
+  else (input.map (padRow q.nuser), q.having, q.proj, q.order)
+
 /-- `translate` + evaluation, from the pattern's solution sequence to `Result.bindings` -/
 def evalQuery (q : Query) (input : List Row) : List Row :=
-  let m2 : List Row × Option Expr × List Proj × List (Expr × Bool) :=
-    if q.isAggregate then
-      let t := translateAggregates q
-      let w := q.nuser + t.A.length
-      let m1 := aggregateJoin w q.group t.A (input.map (padRow w))
-      (t.aliases.foldl (fun rows al => extend (.var al.1) al.2 rows) m1, t.having, t.proj, t.order)
-    else (input.map (padRow q.nuser), q.having, q.proj, q.order)
-  let m3 := match m2.2.1 with | some e => filterRows e m2.1 | none => m2.1
-  let m4 := extendProj m2.2.2.1 m3
-  let m5 := evalOrderBy m2.2.2.2 m4
-  let m6 := evalProject q.nuser (q.proj.map Proj.name) m5
-  let m7 := match q.modifier with
-    | .none => m6
-    | .distinct => evalDistinct m6
-    | .reduced => evalReduced m6
-  match q.offset, q.limit with
-  | none, none => m7
-  | o, l => evalSlice (o.getD 0) l m7
+  let m := groupStage q input
+  applySlice q.offset q.limit
+    (applyModifier q.modifier
+      (evalProject q.nuser (q.proj.map Proj.name)
+        (evalOrderBy m.2.2.2 (extendProj m.2.2.1 (applyHaving m.2.1 m.1)))))
 
 end RV.C08
